@@ -531,7 +531,9 @@ __gmp_doprnt (const struct doprnt_funs_t *funs, void *data,
             break;
 
           case '-':
+            /* C99: if the 0 and - flags both appear, the 0 flag is ignored */
             param.justify = DOPRNT_JUSTIFY_LEFT;
+            param.fill = ' ';
             break;
           case '.':
             seen_precision = 1;
@@ -564,8 +566,9 @@ __gmp_doprnt (const struct doprnt_funs_t *funs, void *data,
           case '0':
             if (value == &param.width)
               {
-                /* in width field, set fill */
-                param.fill = '0';
+                /* in width field, set fill (ignored when left justifying) */
+                if (param.justify != DOPRNT_JUSTIFY_LEFT)
+                  param.fill = '0';
 
                 /* for right justify, put the fill after any minus sign */
                 if (param.justify == DOPRNT_JUSTIFY_RIGHT)
